@@ -66,7 +66,13 @@ def case_strategy(draw, tier):
         else:
             case["xform"] = draw(st.sampled_from(["D", "V", "D1"]))
             case["yform"] = draw(st.sampled_from(["D1", "V", "D"]))
-            case["zform"] = draw(st.sampled_from(["D", "V", "D"]))
+            case["zform"] = draw(st.sampled_from(["D", "V", "D", "DL"]))
+            if case["zform"] == "DL":
+                # DZ for the first L layers only (1 <= L < nz): "the value from the layer above is used" for the rest
+                if nz >= 2:
+                    case["zlayers"] = draw(st.integers(1, nz - 1))
+                else:
+                    case["zform"] = "D"
         case["dz_base"] = draw(st.lists(st.integers(1, 200), min_size=1, max_size=6))
         case["dz_mix"] = [draw(st.integers(0, 5)), draw(st.integers(0, 5)), draw(st.integers(1, 5))]
         case["top_base"] = draw(st.lists(st.integers(0, 400), min_size=1, max_size=6))
@@ -316,7 +322,8 @@ def bc_arrays(case):
     for k in range(nz):
         for j in range(ny):
             for i in range(nx):
-                dz[(i, j, k)] = s * base[(a * i + b * j + c * k) % len(base)]
+                kk = min(k, case["zlayers"] - 1) if case["zform"] == "DL" else k
+                dz[(i, j, k)] = s * base[(a * i + b * j + c * kk) % len(base)]
     zc = case.get("zerocol")
     if zc and case["zform"] != "V":
         for k in range(nz):
@@ -473,7 +480,7 @@ def bc_body(case):
             count = {"DXV": nx, "DYV": ny, "DZV": nz}[kwv]
             out += block(kwv, [num(val(q, q, q)) if kwv != "DZV" else num(dz[(0, 0, q)]) for q in range(count)])
         else:
-            layers = 1 if form == "D1" else nz       # "only the top layer is required"
+            layers = 1 if form == "D1" else (case["zlayers"] if form == "DL" else nz)   # "only the top layer is required"
             out += block(kwd, [num(val(i, j, k)) for k in range(layers) for j in range(ny) for i in range(nx)])
     if case["top"] == "DEPTHZ":
         out += block("DEPTHZ", [num(tv(i, j)) for j in range(ny + 1) for i in range(nx + 1)])
